@@ -138,7 +138,12 @@ def examine(case):
     ref = S.sql_select(spec)
     pre = "\n".join(S.prelude(spec))
     src1 = pre + "\nq = " + S.py_select(spec, "SQLLiteQuery")
-    src2 = pre + "\nq = " + S.py_select(spec, "SQLLiteQuery", order_seed=case["seed"])
+    S.NESTED_ORDER[0] = random.Random(case["seed"] + 1)
+    try:
+        pre2 = "\n".join(S.prelude(spec))
+        src2 = pre2 + "\nq = " + S.py_select(spec, "SQLLiteQuery", order_seed=case["seed"])
+    finally:
+        S.NESTED_ORDER[0] = None
     case["recipe"] = src2 + "\n# reference: " + ref
     kinds = constructs(spec)
     res.nontrivial = len(kinds) >= 3
